@@ -3,8 +3,8 @@ import BeffVerif.Model.Session
 # C14 — watch-mode rebuilds depend on current file contents only, not on edit history
 
 For EVERY world (parser, compiler), every initial contents and every finite history of updates and rebuilds —
-contents that parse, that do not resolve, that do not parse — the output of a rebuild in the long-lived session is the
-output of a fresh session on the current contents (`rebuild_eq_fresh`, `history_independent`). The proof is the
+contents that parse, that do not resolve, that do not parse — the output of a rebuild in the long-lived session, asked under some settings, is the
+output of a fresh session on the current contents under the same settings (`rebuild_eq_fresh`, `history_independent`). The proof is the
 invariant "the cache only holds what parsing the current content gives". With the behaviour before fix D66
 (`keepStale = true`: a content that does not parse leaves the previous module in the cache) the statement is false:
 `stale_module_breaks_history_independence` exhibits a two-step history.
@@ -12,12 +12,12 @@ invariant "the cache only holds what parsing the current content gives". With th
 namespace BeffVerif.C14
 open BeffVerif.Session
 
-variable {File Content Mod Out : Type} [DecidableEq File]
+variable {File Content Mod Sett Out : Type} [DecidableEq File]
 
-theorem inv_fresh (w : World File Content Mod Out) (disk : File → Content) : Inv w (fresh disk : State File Content Mod) := by
+theorem inv_fresh (w : World File Content Mod Sett Out) (disk : File → Content) : Inv w (fresh disk : State File Content Mod) := by
   intro f m h; simp [fresh] at h
 
-theorem inv_update (w : World File Content Mod Out) (s : State File Content Mod) (f : File) (c : Content)
+theorem inv_update (w : World File Content Mod Sett Out) (s : State File Content Mod) (f : File) (c : Content)
     (h : Inv w s) : Inv w (update w false s f c) := by
   intro g m hg
   unfold update at hg ⊢
@@ -31,7 +31,7 @@ theorem inv_update (w : World File Content Mod Out) (s : State File Content Mod)
   · simp only [e, if_false] at hg ⊢
     exact h g m hg
 
-theorem view_of_inv (w : World File Content Mod Out) (s : State File Content Mod) (h : Inv w s) :
+theorem view_of_inv (w : World File Content Mod Sett Out) (s : State File Content Mod) (h : Inv w s) :
     view w s = fun f => w.parse f (s.disk f) := by
   funext f
   unfold view
@@ -39,8 +39,8 @@ theorem view_of_inv (w : World File Content Mod Out) (s : State File Content Mod
   | some m => exact (h f m hc).symm
   | none => rfl
 
-theorem inv_rebuild (w : World File Content Mod Out) (s : State File Content Mod) (h : Inv w s) :
-    Inv w (rebuild w s).1 := by
+theorem inv_rebuild (w : World File Content Mod Sett Out) (s : State File Content Mod) (σ : Sett) (h : Inv w s) :
+    Inv w (rebuild w s σ).1 := by
   intro g m hg
   unfold rebuild at hg ⊢
   simp only at hg ⊢
@@ -48,27 +48,27 @@ theorem inv_rebuild (w : World File Content Mod Out) (s : State File Content Mod
   · rw [view_of_inv w s h] at hg; exact hg
   · exact h g m hg
 
-theorem disk_rebuild (w : World File Content Mod Out) (s : State File Content Mod) : (rebuild w s).1.disk = s.disk := rfl
+theorem disk_rebuild (w : World File Content Mod Sett Out) (s : State File Content Mod) (σ : Sett) : (rebuild w s σ).1.disk = s.disk := rfl
 
-/-- one rebuild: the session answers what a fresh session on the same disk answers -/
-theorem rebuild_eq_fresh (w : World File Content Mod Out) (s : State File Content Mod) (h : Inv w s) :
-    (rebuild w s).2 = (rebuild w (fresh s.disk : State File Content Mod)).2 := by
+/-- one rebuild: the session answers what a fresh session on the same disk answers under the same settings -/
+theorem rebuild_eq_fresh (w : World File Content Mod Sett Out) (s : State File Content Mod) (σ : Sett) (h : Inv w s) :
+    (rebuild w s σ).2 = (rebuild w (fresh s.disk : State File Content Mod) σ).2 := by
   unfold rebuild
   simp only
   rw [view_of_inv w s h, view_of_inv w (fresh s.disk) (inv_fresh w s.disk)]
   rfl
 
 /-- the outputs a history produces, paired with the disk at the time of each rebuild -/
-def disksAtRebuilds (w : World File Content Mod Out) : State File Content Mod → List (Op File Content) → List (File → Content)
+def disksAtRebuilds (w : World File Content Mod Sett Out) : State File Content Mod → List (Op File Content Sett) → List (Sett × (File → Content))
   | _, [] => []
   | s, .update f c :: rest => disksAtRebuilds w (update w false s f c) rest
-  | s, .rebuild :: rest => s.disk :: disksAtRebuilds w (rebuild w s).1 rest
+  | s, .rebuild σ :: rest => (σ, s.disk) :: disksAtRebuilds w (rebuild w s σ).1 rest
 
 /-- **History independence.** From any state satisfying the invariant (in particular from a fresh session), for every
 history, the k-th rebuild outputs exactly what a fresh session outputs on the file contents of that moment. -/
-theorem history_independent (w : World File Content Mod Out) (ops : List (Op File Content)) :
+theorem history_independent (w : World File Content Mod Sett Out) (ops : List (Op File Content Sett)) :
     ∀ (s : State File Content Mod), Inv w s →
-      (run w false s ops).2 = (disksAtRebuilds w s ops).map (fun d => (rebuild w (fresh d : State File Content Mod)).2) := by
+      (run w false s ops).2 = (disksAtRebuilds w s ops).map (fun d => (rebuild w (fresh d.2 : State File Content Mod) d.1).2) := by
   induction ops with
   | nil => intro s _; rfl
   | cons op rest ih =>
@@ -77,27 +77,37 @@ theorem history_independent (w : World File Content Mod Out) (ops : List (Op Fil
     | update f c =>
       simp only [run, step, disksAtRebuilds]
       exact ih _ (inv_update w s f c h)
-    | rebuild =>
+    | rebuild σ =>
       simp only [run, step, disksAtRebuilds, List.map_cons]
-      rw [ih _ (inv_rebuild w s h), rebuild_eq_fresh w s h]
+      rw [ih _ (inv_rebuild w s σ h), rebuild_eq_fresh w s σ h]
 
 /-- the disk only depends on the updates (so "the file contents of that moment" are the last contents written) -/
-theorem disk_after_update (w : World File Content Mod Out) (s : State File Content Mod) (f g : File) (c : Content) :
+theorem disk_after_update (w : World File Content Mod Sett Out) (s : State File Content Mod) (f g : File) (c : Content) :
     (update w false s f c).disk g = if g = f then c else s.disk g := rfl
 
 -- ---------- the behaviour before fix D66 is history dependent ----------
 /-- a two-file-free witness world: contents are numbers, 0 does not parse, the compiler reports the module of file 0 -/
-def demoWorld : World Nat Nat Nat (Option Nat) :=
+def demoWorld : World Nat Nat Nat Unit (Option Nat) :=
   { parse := fun _ c => if c = 0 then none else some c
-    extract := fun v => v 0
-    touched := fun _ => [0] }
+    extract := fun _ v => v 0
+    touched := fun _ _ => [0] }
 
 /-- before the fix: rebuild (caches content 5), update to a broken content, rebuild → still 5; a fresh session: none -/
 theorem stale_module_breaks_history_independence :
-    (run demoWorld true (fresh (fun _ => 5)) [.rebuild, .update 0 0, .rebuild]).2 = [some 5, some 5] ∧
-    (rebuild demoWorld (fresh (fun _ => 0) : State Nat Nat Nat)).2 = none := by decide
+    (run demoWorld true (fresh (fun _ => 5)) [.rebuild (), .update 0 0, .rebuild ()]).2 = [some 5, some 5] ∧
+    (rebuild demoWorld (fresh (fun _ => 0) : State Nat Nat Nat) ()).2 = none := by decide
 
 /-- the same history after the fix -/
-example : (run demoWorld false (fresh (fun _ => 5)) [.rebuild, .update 0 0, .rebuild]).2 = [some 5, none] := by decide
+example : (run demoWorld false (fresh (fun _ => 5)) [.rebuild (), .update 0 0, .rebuild ()]).2 = [some 5, none] := by decide
+
+/-- settings are part of the question: a world whose compiler reports whether the format the module asks for (its number)
+is among the registered ones — two rebuilds in a row that differ in nothing but the settings answer differently, each as a
+fresh session under ITS settings does -/
+def fmtWorld : World Nat Nat Nat (List Nat) Bool :=
+  { parse := fun _ c => some c
+    extract := fun σ v => match v 0 with | some m => σ.contains m | none => false
+    touched := fun _ _ => [0] }
+
+example : (run fmtWorld false (fresh (fun _ => 7)) [.rebuild [7], .rebuild [], .rebuild [7, 8]]).2 = [true, false, true] := by decide
 
 end BeffVerif.C14
